@@ -123,27 +123,25 @@ impl PageCache {
             return Ok(None);
         };
 
-        let mut found_victim = None;
-        // Attempt to iterate over all the frames.
-        while self.cursor <= self.frames.len() && found_victim.is_none() {
-            if let Some((pid, frame)) = self.frames.get_index(self.cursor) {
+        // Look at every frame once, starting at the cursor and wrapping around. (The cursor
+        // used to only move forward: once it had walked past the end because the frames it
+        // met were pinned at that moment, every later eviction failed although frames had
+        // become free again.)
+        for _ in 0..self.frames.len() {
+            if self.cursor >= self.frames.len() {
+                self.cursor = 0;
+            }
+            if let Some((_, frame)) = self.frames.get_index(self.cursor) {
                 if frame.is_free() {
                     self.stats.eviction();
-
                     let (_, victim) = self.frames.swap_remove_index(self.cursor).unwrap();
-
-                    found_victim = Some(victim);
-                    break;
+                    return Ok(Some(victim));
                 }
             };
 
             // Not evictable.
             self.cursor += 1;
         }
-
-        if found_victim.is_some() {
-            return Ok(found_victim);
-        };
 
         Err(IoError::new(
             ErrorKind::OutOfMemory,
